@@ -297,6 +297,25 @@ func (u *UnitInfo) discover(mod string, prog *idlgen.Program) {
 		e.Found = true
 		e.Pkg, e.File, e.GoType, e.Ctor = best.pkg, best.file, best.name, best.ctor
 		e.Getter, e.IsSet, e.GoField, e.Tags = map[int16]string{}, map[int16]string{}, map[int16]string{}, map[int16][2]string{}
+		for _, sf := range st.Fields {
+			want := map[idlgen.Req][]string{idlgen.Required: {"required"}, idlgen.Optional: {"optional"}, idlgen.Default: {"", "default"}}[sf.Req]
+			found := false
+			for _, f := range best.fields {
+				if f.id != sf.ID {
+					continue
+				}
+				found = true
+				if f.name != sf.Name {
+					e.TagErrors = append(e.TagErrors, fmt.Sprintf("field %d: tag name %q, IDL name %q", sf.ID, f.name, sf.Name))
+				}
+				if f.req != want[0] && f.req != want[len(want)-1] {
+					e.TagErrors = append(e.TagErrors, fmt.Sprintf("field %d: tag requiredness %q, schema %s", sf.ID, f.req, sf.Req.Letter()))
+				}
+			}
+			if !found {
+				e.TagErrors = append(e.TagErrors, fmt.Sprintf("field %d (%s): no Go field carries this id in its thrift tag", sf.ID, sf.Name))
+			}
+		}
 		for _, f := range best.fields {
 			e.GoField[f.id] = f.goName
 			e.Tags[f.id] = [2]string{f.name, f.req}
